@@ -443,10 +443,15 @@ func (s *Sim) grantable(t *Task, kind int, key any, aux any, ts []*Task) bool {
 func (s *Sim) flushDueTimers() {
 	// a channel, not the controller's cond: tasks woken by due timers signal the cond when they park,
 	// and a wake-up of the controller between its check and its wait would lose the timer's own signal
+	// Race detector: the controller has acquired every task's clock (synctest.Wait); starting a timer releases
+	// the starter's clock to whoever is next woken by a timer.  Without the bracket below every task woken by a
+	// timer would be ordered after everything that happened before, and only same-instant races would be seen.
+	raceDisable()
 	ch := make(chan struct{})
 	tm := time.AfterFunc(0, func() { close(ch) })
 	<-ch
 	tm.Stop()
+	raceEnable()
 	synctest.Wait()
 }
 
